@@ -235,16 +235,22 @@ func (conn *diskConn) closeFile(except *diskTrack) {
 // called locked
 func (conn *diskConn) close() []*diskTrack {
 	conn.closeFile(nil)
-
-	conn.originLocal = time.Time{}
-	conn.originRemote = 0
+	conn.resetOrigins()
 
 	tracks := make([]*diskTrack, 0, len(conn.tracks))
 	for _, t := range conn.tracks {
-		t.origin = none
 		tracks = append(tracks, t)
 	}
 	return tracks
+}
+
+// called locked
+func (conn *diskConn) resetOrigins() {
+	conn.originLocal = time.Time{}
+	conn.originRemote = 0
+	for _, t := range conn.tracks {
+		t.origin = none
+	}
 }
 
 func (conn *diskConn) Close() error {
@@ -646,8 +652,16 @@ func (t *diskTrack) writeBuffered(force bool) error {
 				continue
 			}
 			// we've gone around 2^31 timestamps, force
-			// creating a new file to avoid wraparound
-			t.conn.close()
+			// creating a new file to avoid wraparound;
+			// don't flush the track that is in the middle
+			// of writing
+			t.conn.closeFile(t)
+			t.conn.resetOrigins()
+			// the origin is normally set when the packet
+			// arrives
+			t.setOrigin(
+				ts, time.Now(), t.remote.Codec().ClockRate,
+			)
 		}
 
 		var keyframe bool
